@@ -16,7 +16,12 @@ for f in sys.argv[1:]:
         if not os.path.exists(p):
             continue
         meta = json.load(open(p))
-        meta['regress'] = {'outcome': outcome, 'repo_head': rhead, 'verif_head': vhead}
+        if outcome.startswith('skipped') and meta.get('regress') and not meta['regress']['outcome'].startswith('skipped'):
+            # keep the last real verdict (on the tree before the fix that made the patch inapplicable)
+            meta['regress_latest'] = {'outcome': outcome, 'repo_head': rhead, 'verif_head': vhead}
+        else:
+            meta['regress'] = {'outcome': outcome, 'repo_head': rhead, 'verif_head': vhead}
+            meta.pop('regress_latest', None)
         json.dump(meta, open(p, 'w'), indent=1)
         n += 1
 print('recorded', n)
